@@ -321,6 +321,16 @@ func StringWithParenthesis(expr Expression) string {
 	return strings.Repeat("(", n) + s + strings.Repeat(")", n)
 }
 
+// operandString returns the string representation of expr used as operand of
+// a primary expression (call, index, slicing, selector and type assertion),
+// surrounding it by parenthesis if it is a unary or binary operator.
+func operandString(expr Expression) string {
+	if _, ok := expr.(Operator); ok {
+		return "(" + expr.String() + ")"
+	}
+	return expr.String()
+}
+
 // Cut indicates, in a [Text] node, how many bytes should be cut from the left
 // and the right of the text before rendering the [Text] node.
 type Cut struct {
@@ -530,12 +540,8 @@ func NewCall(pos *Position, fun Expression, args []Expression, isVariadic bool) 
 
 // String returns the string representation of n.
 func (n *Call) String() string {
-	s := n.Func.String()
+	s := operandString(n.Func)
 	switch fn := n.Func.(type) {
-	case *UnaryOperator:
-		if fn.Op == OperatorPointer || fn.Op == OperatorReceive {
-			s = "(" + s + ")"
-		}
 	case *FuncType:
 		if len(fn.Result) == 0 {
 			s = "(" + s + ")"
@@ -591,6 +597,9 @@ func (n *ChanType) String() string {
 	s += "chan"
 	if n.Direction == SendDirection {
 		s += "<-"
+	}
+	if e, ok := n.ElementType.(*ChanType); ok && n.Direction == NoDirection && e.Direction == ReceiveDirection {
+		return s + " (" + e.String() + ")"
 	}
 	return s + " " + n.ElementType.String()
 }
@@ -1001,7 +1010,7 @@ func NewIndex(pos *Position, expr Expression, index Expression) *Index {
 
 // String returns the string representation of n.
 func (n *Index) String() string {
-	return n.Expr.String() + "[" + n.Index.String() + "]"
+	return operandString(n.Expr) + "[" + n.Index.String() + "]"
 }
 
 // Interface node represents an interface type.
@@ -1304,7 +1313,7 @@ func NewSlicing(pos *Position, expr, low, high Expression, max Expression, isFul
 
 // String returns the string representation of n.
 func (n *Slicing) String() string {
-	s := n.Expr.String() + "["
+	s := operandString(n.Expr) + "["
 	if n.Low != nil {
 		s += n.Low.String()
 	}
@@ -1429,9 +1438,9 @@ func NewTypeAssertion(pos *Position, expr Expression, typ Expression) *TypeAsser
 // String returns the string representation of n.
 func (n *TypeAssertion) String() string {
 	if n.Type == nil {
-		return n.Expr.String() + ".(type)"
+		return operandString(n.Expr) + ".(type)"
 	}
-	return n.Expr.String() + ".(" + n.Type.String() + ")"
+	return operandString(n.Expr) + ".(" + n.Type.String() + ")"
 }
 
 // TypeDeclaration node represents a type declaration, that is an alias
